@@ -65,6 +65,12 @@ CLAIMED = {
              "detuning limits) or concrete variants (clock, bandwidth, EOM configuration, ids/order/reusability); strict=True must raise or return "
              "the identical timeline for all parameter values, strict=False must satisfy every limit of B.", ref="§6 C18",
              note="Trusted base: z3, symx, stubs in the evidence file. Finding F5 (custom_phase_jump_time / min_duration not compared) is reported as KNOWN-FINDING."),
+ "C04": dict(text="Bounded symbolic model checking of sequence serialisation: 10 built programs and 4 parametrized templates covering every "
+             "operation kind and optional argument at default and non-default value (waveform kinds, protocols, EOM incl. drift correction, DMM, SLM, "
+             "XY + magnetic field, layout register, measurement, variables/items/arithmetic) with symbolic numeric arguments; real serializer -> "
+             "real jsonschema validation -> real deserializer; device/register/channels/timeline/pulses/phase references/measurement compared "
+             "for all values; templates compared after build() for symbolic variable values; same for the legacy PulserEncoder/Decoder.", ref="§6 C04",
+             note="Trusted base: z3, symx, token JSON facade (schema numeric ranges checked for a witness value only), stubs in the evidence file."),
  "C02": dict(text="Bounded symbolic model checking of the real _Schedule operations: one operation from an arbitrary state "
              "satisfying the representation invariant (inductive step), all times/durations/fall times/limits as solver variables; "
              "exhaustive over paths and values inside the stated slot-count/clock bounds.", ref="§6 C02, §5 L1"),
